@@ -812,6 +812,21 @@ class Machine:
         if op == 'CMPQ':
             self.flags = (self.src_val(A[0], 64, pc), self.src_val(A[1], 64, pc))
             return None
+        if op in ('CMPB', 'CMPW', 'CMPL'):
+            w = {'CMPB': 8, 'CMPW': 16, 'CMPL': 32}[op]
+            a, b = self.src_val(A[0], w, pc), self.src_val(A[1], w, pc)
+            if isinstance(a, Addr) or isinstance(b, Addr):
+                raise AsmUnsupported('narrow compare of a pointer')
+
+            def sx(v):
+                if isinstance(v, int):
+                    v &= (1 << w) - 1
+                    return (v - (1 << w)) & M64 if v >> (w - 1) else v
+                if TAINT[0]:
+                    return SEC(64)
+                return simp(z3.SignExt(64 - w, z3.Extract(w - 1, 0, bv(v, 64)) if bv(v, 64).size() > w else bv(v, w)))
+            self.flags = (sx(a), sx(b))
+            return None
         if op in ('MOVQ', 'MOVL', 'MOVW', 'MOVB'):
             width = {'MOVQ': 64, 'MOVL': 32, 'MOVW': 16, 'MOVB': 8}[op]
             s, d = A
@@ -1029,6 +1044,35 @@ class Machine:
         dst = A[-1]
         dv = self.vreg(dst)
         n = self.vwidth(dv[0]) if dv else None
+        if op in ('VPADDW', 'VPADDB', 'VPADDQ'):
+            ew = {'VPADDB': 8, 'VPADDW': 16, 'VPADDQ': 64}[op]
+            a = self.vsrc(A[0], n, pc)
+            b = self.vsrc(A[1], n, pc)
+            if all(isinstance(x, int) for x in a + b):
+                ba, bb = self.lanes_to_bytes(a), self.lanes_to_bytes(b)
+                out = []
+                k = ew // 8
+                for i in range(0, len(ba), k):
+                    x = sum(ba[i + j] << (8 * j) for j in range(k))
+                    y = sum(bb[i + j] << (8 * j) for j in range(k))
+                    z = (x + y) & ((1 << ew) - 1)
+                    out += [(z >> (8 * j)) & 0xff for j in range(k)]
+                self.vdst(dst, self.bytes_to_lanes(out))
+            elif TAINT[0]:
+                self.vdst(dst, [SEC(32) if not (isinstance(x, int) and isinstance(y, int)) else 0 for x, y in zip(a, b)])
+            else:
+                out = []
+                for x, y in zip(a, b) if ew <= 32 else []:
+                    if isinstance(x, int) and isinstance(y, int):
+                        parts = [(((x >> s_) + (y >> s_)) & ((1 << ew) - 1)) << s_ for s_ in range(0, 32, ew)]
+                        out.append(sum(parts) & M32)
+                    else:
+                        xs, ys = bv(x, 32), bv(y, 32)
+                        out.append(simp(z3.Concat(*[z3.Extract(s_ + ew - 1, s_, xs) + z3.Extract(s_ + ew - 1, s_, ys) for s_ in range(32 - ew, -1, -ew)])))
+                if ew > 32:
+                    raise AsmUnsupported('symbolic VPADDQ')
+                self.vdst(dst, out)
+            return None
         if op in ('VPXORD', 'VPANDD', 'VPADDD'):
             f = {'VPXORD': self.l_xor, 'VPANDD': self.l_and, 'VPADDD': self.l_add}[op]
             if op == 'VPXORD' and A[0] == A[1]:
